@@ -415,7 +415,7 @@ struct KnownFinding {
 }
 
 fn load_known(prop: &str) -> Vec<KnownFinding> {
-    let Ok(s) = std::fs::read_to_string("/verif/known_findings.json") else { return vec![] };
+    let Ok(s) = std::fs::read_to_string(&format!("{}/known_findings.json", verif_root())) else { return vec![] };
     let all: Vec<KnownFinding> = match serde_json::from_str(&s) {
         Ok(v) => v,
         Err(e) => {
@@ -440,7 +440,7 @@ fn tier_cfg(prop: &str, tier: &str) -> TierCfg {
     let thorough = tier == "thorough";
     let (runs, store) = match prop {
         "C13" => (if thorough { 900_000 } else { 24_000 }, if thorough { 3_000_000 } else { 80_000 }),
-        "C14" => (if thorough { 450_000 } else { 20_000 }, 0),
+        "C14" => (if thorough { 300_000 } else { 12_000 }, 0),
         "C15" => (if thorough { 140_000 } else { 7_000 }, 0),
         "C16" => (if thorough { 400_000 } else { 14_000 }, 0),
         _ => (if thorough { 150_000 } else { 7_000 }, if thorough { 4_000_000 } else { 200_000 }),
@@ -545,7 +545,7 @@ fn check(prop: &str, tier: &str, verif_seed: u64, runs_override: Option<u64>, jo
     }
 
     let known = load_known(prop);
-    let dir = PathBuf::from(format!("/verif/replays/{}", prop));
+    let dir = PathBuf::from(format!("{}/replays/{}", verif_root(), prop));
     let _ = std::fs::create_dir_all(&dir);
     let mut violations = 0;
     let mut known_hits = 0;
@@ -634,8 +634,8 @@ fn check(prop: &str, tier: &str, verif_seed: u64, runs_override: Option<u64>, jo
             "sync implementations only; the tokio variants are not simulated",
         ],
     });
-    let _ = std::fs::create_dir_all("/verif/evidence");
-    std::fs::write(format!("/verif/evidence/{}.json", prop), serde_json::to_string_pretty(&ev).unwrap()).expect("write evidence");
+    let _ = std::fs::create_dir_all(format!("{}/evidence", verif_root()));
+    std::fs::write(format!("{}/evidence/{}.json", verif_root(), prop), serde_json::to_string_pretty(&ev).unwrap()).expect("write evidence");
     for l in &lines {
         println!("{}", l);
     }
@@ -840,3 +840,8 @@ fn main() {
 
 #[allow(dead_code)]
 fn _unused(_: &Path) {}
+
+/// Root of the verification tree: $VERIF_ROOT (set by ./check to its own directory) or /verif.
+fn verif_root() -> String {
+    std::env::var("VERIF_ROOT").unwrap_or_else(|_| "/verif".to_string())
+}
